@@ -139,6 +139,11 @@ void table(Tab& t)
             std::size_t cnt = over >= SMAX / 2 ? over : 3 - n + over;
             SCN("static_vector<int,3>", "insert(pos,n,x)", "size=%zu,count-exceeds-room", n, true, { SV v; fill_vec(v, n); int x = 9; WATCH(v); v.insert(v.cbegin(), cnt, x); });
         }
+        for (std::size_t cnt : {SMAX, SMAX - 1, SMAX - n + 1}) { // size() + count wraps around
+            if (cnt == 0) { continue; }
+            SCN("static_vector<int,3>", "insert(pos,n,x)", "size=%zu,count-wraps", n, true, { SV v; fill_vec(v, n); int x = 9; WATCH(v); v.insert(v.cbegin(), cnt, x); });
+            SCN("static_vector<tracked,3>", "insert(pos,n,x)", "size=%zu,count-wraps", n, true, { SVT v; fill_vec(v, n); vf::TCM x(9); WATCH(v); v.insert(v.cbegin(), cnt, x); });
+        }
         SCN("static_vector<int,3>", "insert(pos,first,last)", "size=%zu,range-exceeds-room", n, true, {
             SV v; fill_vec(v, n); vf::Buf<int> src(4 - n); for (std::size_t i = 0; i < src.size(); ++i) { src[i] = 7; }
             int const* f = src.data(); int const* l = src.data() + src.size(); WATCH(v); v.insert(v.cbegin(), f, l); });
@@ -252,6 +257,17 @@ void table(Tab& t)
             SCN("span<int>", "last(count)", "size=%zu,count>size", n, true, { vf::Buf<int> h(n); etl::span<int> s(h.data(), n); WATCH(s); use(s.last(k)); });
             SCN("span<int>", "subspan(offset,count)", "size=%zu,offset>size", n, true, { vf::Buf<int> h(n); etl::span<int> s(h.data(), n); WATCH(s); use(s.subspan(k)); });
             SCN("span<int>", "subspan(offset,count)", "size=%zu,count>size-offset", n, true, { vf::Buf<int> h(n); etl::span<int> s(h.data(), n); WATCH(s); use(s.subspan(n / 2, k)); });
+        }
+    }
+    for (std::size_t n : {std::size_t(2), std::size_t(3), std::size_t(6)}) {
+        for (std::size_t off : {std::size_t(1), std::size_t(2), n}) {
+            // counts whose sum with the offset wraps around SIZE_MAX: the check must not be written as offset + count <= size()
+            for (std::size_t k : {SMAX - 1, SMAX - off + 1, SMAX - off, SMAX / 2 + 1}) {
+                if (k == SMAX) { continue; } // dynamic_extent means "rest"
+                char sb[64];
+                std::snprintf(sb, sizeof sb, "size=%zu,offset=%zu,count-wraps", n, off);
+                SCN("span<int>", "subspan(offset,count)", "%s", sb, true, { vf::Buf<int> h(n); etl::span<int> s(h.data(), n); WATCH(s); use(s.subspan(off, k)); });
+            }
         }
     }
     SCN("span<int>", "front()", "%s", "empty", true, { etl::span<int> s; WATCH(s); use(s.front()); });
